@@ -601,7 +601,7 @@ fn cmd_allocfault(kv: &BTreeMap<String, String>) -> i32 {
     };
     let out = execute(&t);
     print!("{}", out.log);
-    println!("ALLOCFAULT fired={} double_frees={}", out.stats.alloc_fault_fired, out.stats.double_frees);
+    println!("ALLOCFAULT fired={} recovered={} double_frees={}", out.stats.alloc_fault_fired, out.stats.alloc_fault_recovered, out.stats.double_frees);
     if let Some(v) = out.violation {
         let memory = v.oracle.starts_with("O4");
         if (prop == "C03") == memory {
